@@ -827,6 +827,255 @@ def engine_conc(pid, tier, evidence=True, only_av=False):
     return rc
 
 
+# ---------------------------------------------------------------- FAULT engine (C05)
+
+ARGK_SYM = {"nil": {"sym": "nil"}, "latest": {"sym": "latest"}, "old": {"sym": "first"}, "mid": {"sym": "anc", "k": 1}, "rnd": {"sym": "rnd", "k": 0}}
+
+FAULT_HISTORIES = [
+    # (op, argk) sequences; request i is faulted on the state left by requests 0..i-1
+    [("AddVersion", "nil"), ("AddVersion", "latest"), ("AddSnapshot", "latest"), ("AddVersion", "latest"), ("GetChildVersion", "mid"),
+     ("AddVersion", "old"), ("GetSnapshot", "nil"), ("AddSnapshot", "latest"), ("AddVersion", "latest")],
+    [("GetChildVersion", "nil"), ("AddSnapshot", "rnd"), ("AddVersion", "rnd"), ("AddVersion", "latest"), ("AddVersion", "latest"),
+     ("AddSnapshot", "mid"), ("AddSnapshot", "old"), ("GetSnapshot", "nil"), ("GetChildVersion", "latest"), ("AddVersion", "nil")],
+]
+FOLLOW = [{"op": "GetChildVersion", "arg": {"sym": "anc", "k": 1}}, {"op": "AddVersion", "arg": {"sym": "latest"}}, {"op": "GetSnapshot"}]
+
+
+def engine_fault(pid, tier):
+    t0 = time.time()
+    rng = random.Random(seed() * 48271 + 1)
+    binary = build_harness()
+    wd = workdir("fault")
+    # ---- design level: one request, up to 2 injected faults, every storage call, both lvls
+    model_runs = []
+    states = transitions = 0
+    for backend, shapes in (("sqlite", "ShapesHttp"), ("sqlite", "ShapesLib")):
+        cfg = write_cfg(f"fault_{os.getpid()}_{shapes}.cfg", conc_cfg_text(backend, True, 1, shapes, "SeedsAll", faults=(1 if tier == "quick" else 2),
+                                                                         invariants="MutualExclusion Inv_C05", emit=False))
+        out = tlc("MC_Conc.tla", cfg, workers=4, timeout=900)
+        if not tlc_ok(out):
+            raise ToolError("TLC reports an error on the fault model:\n" + ("\n".join(tlc_error_summary(out)) or out[-3000:]))
+        st = tlc_stats(out)
+        model_runs.append(dict(backend=backend, shapes=shapes, states=st["distinct"], transitions=st["generated"]))
+        states += st["distinct"]
+        transitions += st["generated"]
+    if tier == "thorough":
+        cfg = write_cfg(f"fault_live_{os.getpid()}.cfg", conc_cfg_text("sqlite", True, 2, "ShapesAV", "SeedsNew", faults=1,
+                                                                       invariants="MutualExclusion", emit=False).replace("SPECIFICATION Spec", "SPECIFICATION FairSpec")
+                        .replace("CHECK_DEADLOCK FALSE", "PROPERTIES Live_Done Live_LockFree\nCHECK_DEADLOCK FALSE"))
+        out = tlc("MC_Conc.tla", cfg, workers=8, timeout=1500)
+        if not tlc_ok(out):
+            raise ToolError("TLC reports an error on the fault liveness model:\n" + ("\n".join(tlc_error_summary(out)) or out[-3000:]))
+        st = tlc_stats(out)
+        model_runs.append(dict(liveness=True, states=st["distinct"], transitions=st["generated"]))
+    # ---- the code: every storage call and every I/O call of every request of the histories fails
+    jobs = []
+    hists = FAULT_HISTORIES if tier == "thorough" else FAULT_HISTORIES[:2]
+    for h, hist in enumerate(hists):
+        for lvl in ("http", "lib"):
+            if tier == "quick" and lvl == "lib" and h == 1:
+                continue
+            for i, (op, argk) in enumerate(hist):
+                if lvl == "lib" and i == 0 and op == "AddVersion":
+                    pass
+                seedsteps = [{"op": o, "arg": ARGK_SYM[a]} for o, a in hist[:i]]
+                jobs.append({"id": f"f{h}-{lvl}-{i}", "mode": "sweep", "backend": "sqlite", "instances": "shared", "cfg": {"days": 14, "versions": 100},
+                             "seed": seedsteps, "reqs": [{"op": op, "argk": argk, "lvl": lvl}], "follow": FOLLOW,
+                             "double": tier == "thorough" or (h == 0 and lvl == "http" and i in (0, 3)),
+                             "io_variants": "full" if tier == "thorough" else "quick", "max_rounds": 200})
+    t1 = time.time()
+    files, nrounds, perjob = run_conc_jobs(binary, jobs, wd)
+    t2 = time.time()
+    viols, total = judge(files, spec="TraceConc.tla")
+    t3 = time.time()
+    log(f"[fault] tlc {t1-t0:.1f}s harness {t2-t1:.1f}s judge {t3-t2:.1f}s rounds {total}")
+    found = []
+    kinds = collections.Counter()
+    distinct = set()
+    samples = []
+    for f in files:
+        with open(f) as fh:
+            for line in fh:
+                e = json.loads(line)
+                info = e.get("info", {})
+                kinds[(info.get("sweep"), e["resps"][0]["kind"])] += 1
+                distinct.add((e["job"], json.dumps(info, sort_keys=True)))
+                if len(samples) < 4 and info.get("sweep") in ("trait", "io") and len(distinct) % 97 == 1:
+                    samples.append({"request": e["reqs"][0], "fault": info, "response": e["resps"][0]["kind"], "calls": [c[1] for c in e["log"]]})
+    for v in viols:
+        if pid not in v["names"]:
+            continue
+        e = load_event(v["file"], v["line"])
+        info = e.get("info", {})
+        sig = dict(engine="fault", op=e["reqs"][0]["op"], lvl=e["reqs"][0]["lvl"], sweep=info.get("sweep"), gate=info.get("gate"),
+                   when=info.get("when"), resp=e["resps"][0]["kind"])
+        what = (f"C05 false: request {e['reqs'][0]} with fault {info}: response {e['resps'][0]}; state before latest={e['seed']['l']} nv={len(e['seed']['v'])}, "
+                f"after latest={e['final']['l']} nv={len(e['final']['v'])} snap={e['final']['s']}; follow-ups {[(f['resp']['kind'], f['resp'].get('msg', '')[:50]) for f in e['follow']]}; calls {[c[1] for c in e['log']]}")
+        found.append(dict(sig=sig, what=what[:1800], replay=dict(engine="conc", predicate=pid, round=e)))
+    coverage = dict(evaluations=total, distinct_nontrivial=len([d for d in distinct if '"probe"' not in d[1]]),
+                    rule="for every request of the histories (each on the state left by its predecessors; HTTP and library entry): a fault-free probe counts its storage "
+                         "calls and I/O calls; then every storage call fails before / after taking effect (trait level, gating Storage wrapper) and every I/O call "
+                         "(pread/pwrite/fsync/ftruncate/open/unlink on the SQLite files, LD_PRELOAD shim) fails with EIO once / ENOSPC persistently; selected double faults; "
+                         "distinct = distinct (request, fault placement); TLC judges response, resulting state and three follow-up requests (C05_Round)",
+                    samples=samples, outcome_counts={f"{k[0]}/{k[1]}": n for k, n in kinds.items()},
+                    model_runs=model_runs, model_states=states, model_transitions=transitions, sweep_jobs=len(jobs),
+                    gates_and_iocalls=[{"job": j["id"], "gates": j.get("gates"), "iocalls": j.get("iocalls")} for j in perjob][:12])
+    assumptions = ["SQLite backend (the persistent one); faults are injected at the Storage trait boundary and at libc I/O calls of the database files",
+                   "an error answer may leave the state exactly as after the request (only the acknowledgement was lost)"]
+    rc = report(pid, tier, "fault_enumeration", found, coverage, assumptions, t0)
+    shutil.rmtree(wd, ignore_errors=True)
+    return rc
+
+
+# ---------------------------------------------------------------- CRASH engine (C04)
+
+def engine_crash(pid, tier):
+    import crashplan as cp
+    from concurrent.futures import ThreadPoolExecutor
+    t0 = time.time()
+    rng = random.Random(seed() * 69069 + 17)
+    binary = build_harness()
+    wd = workdir("crash")
+    shm = os.path.join("/dev/shm" if os.path.isdir("/dev/shm") else wd, f"tcss-crash-{os.getpid()}")
+    shutil.rmtree(shm, ignore_errors=True)
+    os.makedirs(shm)
+    try:
+        # ---- design level: Crash enabled at every step of every request program
+        cfg = write_cfg(f"crash_{os.getpid()}.cfg", conc_cfg_text("sqlite", True, 1, "ShapesHttp", "SeedsAll", faults=0, crash=True,
+                                                                 invariants="MutualExclusion Inv_C04", emit=False))
+        out = tlc("MC_Conc.tla", cfg, workers=4, timeout=900)
+        if not tlc_ok(out):
+            raise ToolError("TLC reports an error on the crash model:\n" + ("\n".join(tlc_error_summary(out)) or out[-3000:]))
+        mst = tlc_stats(out)
+        names = ["h1"] if tier == "quick" else ["h1", "h2", "h3"]
+        run = 1
+        trace_files = []
+        stats = {}
+        nimg = 0
+        samples = []
+        for hname in names:
+            # dry run with the I/O log
+            d0 = os.path.join(shm, f"{hname}-dry")
+            t_dry = os.path.join(wd, f"{hname}-dry.ndjson")
+            iolog = os.path.join(wd, f"{hname}.iolog")
+            p = cp.crashrun(binary, hname, run, d0, t_dry, iolog=iolog)
+            if p.returncode != 0:
+                raise ToolError("dry crashrun failed: " + p.stdout[-1000:] + p.stderr[-2000:])
+            ncalls = json.loads(p.stdout.strip().splitlines()[-1])["iocalls"]
+            events = cp.read_events(t_dry)
+            ops = cp.parse_iolog(iolog)
+            if any(e["ev"] == "Ack" and e["resp"]["kind"] in ("error", "panic") for e in events):
+                raise ToolError("the crash history does not run cleanly without a crash: " + json.dumps([e["resp"] for e in events if e["ev"] == "Ack"])[:500])
+            shutil.rmtree(d0, ignore_errors=True)
+            stats[hname] = dict(iocalls=ncalls, requests=sum(1 for e in events if e["ev"] == "Ack"),
+                                op_counts=dict(collections.Counter(o["op"] for o in ops)))
+            stride = 1 if (tier == "thorough" or ncalls <= 700) else 2
+            ks = list(range(1, ncalls + 1, stride))
+            # ---- (i) process-crash images: the real process is killed before call k
+            images = []
+
+            def kill_at(k):
+                d = os.path.join(shm, f"{hname}-pc{k}")
+                t = os.path.join(wd, f"{hname}-pc{k}.ndjson")
+                p = cp.crashrun(binary, hname, 0, d, t, crash_at=k)
+                return k, d, t, p.returncode
+            with ThreadPoolExecutor(max_workers=NCPU) as ex:
+                for k, d, t, rc in ex.map(kill_at, ks):
+                    if rc not in (77, 0):
+                        raise ToolError(f"crashrun at {k} ended with {rc}")
+                    evs = cp.read_events(t)
+                    os.remove(t)
+                    if rc == 77 and evs:
+                        images.append(dict(dir=d, prefix=evs, k=k, variant="process-crash"))
+            stats[hname]["process_crash_images"] = len(images)
+            # ---- (ii) power-loss images rebuilt from the I/O log
+            dm = cp.DiskModel()
+            pl = []
+            byseq = {o["seq"]: o for o in ops}
+            maxpend = 0
+            for k in range(1, ncalls + 2):
+                if k in ks or k == ncalls + 1:
+                    n = len(dm.pending)
+                    maxpend = max(maxpend, n)
+                    for vname, subset in cp.variants(n, rng, tier):
+                        pl.append((k, vname, dm.image(subset)))
+                    if tier == "thorough" and n > 0:
+                        pl.append((k, f"torn{n-1}", dm.image(frozenset(range(n)), torn=n - 1)))
+                if k in byseq:
+                    dm.step(byseq[k])
+            stats[hname]["power_loss_images"] = len(pl)
+            stats[hname]["max_unsynced_ops"] = maxpend
+            for j, (k, vname, files) in enumerate(pl):
+                d = os.path.join(shm, f"{hname}-pl{j}")
+                cp.write_image(files, d)
+                images.append(dict(dir=d, prefix=cp.prefix_for(events, k), k=k, variant="power-loss:" + vname))
+            pl = None
+            # ---- recovery by the real code in fresh processes, batches in parallel
+            for i, im in enumerate(images):
+                im["run"] = run + i
+            run += len(images) + 1
+            nimg += len(images)
+            nb = NCPU
+            batches = [images[i::nb] for i in range(nb)]
+
+            def recover(bi):
+                b = batches[bi]
+                if not b:
+                    return None
+                pf = os.path.join(wd, f"{hname}-rec{bi}.json")
+                of = os.path.join(wd, f"{hname}-rec{bi}.ndjson")
+                json.dump({"images": b, "continuation": cp.CONTINUATION}, open(pf, "w"))
+                run_harness(binary, ["recover", pf, of], timeout=3000)
+                os.remove(pf)
+                return of
+            with ThreadPoolExecutor(max_workers=nb) as ex:
+                for of in ex.map(recover, range(nb)):
+                    if of:
+                        trace_files.append(of)
+            if not samples:
+                im = images[len(images) // 2]
+                samples.append({"crash_point": im["k"], "variant": im["variant"], "history": hname,
+                                "known_at_crash": [dict(ev=e["ev"], req=e.get("req"), resp=e.get("resp", {}).get("kind")) for e in im["prefix"][-3:]]})
+            for im in images:
+                shutil.rmtree(im["dir"], ignore_errors=True)
+            images = None
+        t1 = time.time()
+        chunks = split_trace(trace_files, os.path.join(wd, "chunks"), max_events=12000)
+        viols, total = judge(chunks)
+        t2 = time.time()
+        log(f"[crash] images {nimg} in {t1-t0:.1f}s judge {t2-t1:.1f}s events {total}")
+        found = []
+        for v in viols:
+            names_ = [n for n in v["names"] if n not in NOTE_NAMES]
+            if not names_:
+                continue
+            run_evs = load_run(v["file"], v["run"])
+            crash = next((e for e in run_evs if e.get("ev") == "Crash"), {})
+            ev = load_event(v["file"], v["line"])
+            vkind = str(crash.get("variant", "")).split(":")[0]
+            sig = dict(engine="crash", variant=vkind, event=ev.get("ev"), names=sorted(names_),
+                       pending=next((e["req"]["op"] for e in reversed(run_evs) if e.get("ev") == "Intent"), None))
+            what = (f"C04: crash before I/O call {crash.get('k')} ({crash.get('variant')}): after recovery predicate(s) {names_} false at event {ev.get('ev')} "
+                    f"{json.dumps(ev.get('req'))} -> {json.dumps(ev.get('resp'))} integrity={ev.get('integrity')}; "
+                    f"last known: {[(e['ev'], e.get('req', {}).get('op'), e.get('resp', {}).get('kind')) for e in run_evs if e.get('ev') in ('Intent', 'Ack')][-3:]}")
+            found.append(dict(sig=sig, what=what[:1800], replay=dict(engine="crash", predicate=pid, events=run_evs[-14:])))
+        coverage = dict(evaluations=nimg, distinct_nontrivial=nimg,
+                        rule="every file-system call (write, truncate, sync, delete, create) the database issues while the history runs is a crash point; "
+                             "for each: the process-crash image (the real process is killed just before the call) and power-loss images (content as of the last "
+                             "fsync plus a subset of the later writes: none, all, prefixes, single omissions, single survivors, seeded random subsets; all subsets "
+                             "when few); every image is distinct by (crash point, variant); each is opened by the real code in a fresh process, checked with "
+                             "PRAGMA integrity_check, projected, exercised with further requests, and judged by TLC (Recovered event of TraceSeq)",
+                        samples=samples, histories=stats, events_judged=total, model_states=mst["distinct"], model_transitions=mst["generated"])
+        assumptions = ["directory operations (create, unlink) are durable in issue order", "a pwrite is atomic (thorough adds sector-torn last writes)",
+                       "the kernel and tmpfs honour write/fsync semantics; SQLite's own recovery code is exercised, not verified",
+                       "the -shm file is not part of a power-loss image"]
+        rc = report(pid, tier, "fault_enumeration", found, coverage, assumptions, t0)
+        return rc
+    finally:
+        shutil.rmtree(shm, ignore_errors=True)
+        shutil.rmtree(wd, ignore_errors=True)
+
+
 # ---------------------------------------------------------------- dispatch
 
 ENGINES = {}
@@ -836,6 +1085,8 @@ for _p in ("C14", "C15", "C16", "C20"):
     ENGINES[_p] = engine_http
 ENGINES["C12"] = engine_urg
 ENGINES["C03"] = engine_conc
+ENGINES["C05"] = engine_fault
+ENGINES["C04"] = engine_crash
 ENGINES["C09"] = engine_lock
 ENGINES["C13"] = engine_lock
 
